@@ -107,6 +107,9 @@ func (env *SpecEnv) call(x ECall, hint types.Type) Value {
 			}
 			return Term{S: v.S, T: to}
 		}
+		if g := ex.prog.cs.Ghosts[relPkgPath(env.pkg)+"."+id.Name]; g != nil {
+			return env.ghostRead(g, x.Args)
+		}
 		// spec function in this package?
 		if sf := ex.prog.cs.Specs[relPkgPath(env.pkg)+"."+id.Name]; sf != nil {
 			return env.applySpecFunc(sf, x.Args)
@@ -119,6 +122,9 @@ func (env *SpecEnv) call(x ECall, hint types.Type) Value {
 		if id, ok := sel.X.(EIdent); ok {
 			if pk := env.findPkg(id.Name); pk != nil {
 				if _, isVar := env.vars[id.Name]; !isVar {
+					if g := ex.prog.cs.Ghosts[relPkgPath(pk)+"."+sel.Name]; g != nil {
+						return env.ghostRead(g, x.Args)
+					}
 					if sf := ex.prog.cs.Specs[relPkgPath(pk)+"."+sel.Name]; sf != nil {
 						n := env.sub()
 						n.pkg = pk
@@ -238,6 +244,9 @@ func (ex *Exec) specFuncApply(inner *SpecEnv, sf *SpecFunc, argv []Term) Value {
 		ex.defineRecSpec(inner, sf, name, reads, sorts, ret)
 	} else {
 		ex.vc.declareFun(name, "("+strings.Join(sorts, " ")+")", ex.vc.tc.sortOf(ret))
+		if sf.Body == nil {
+			ex.autoAxioms(inner, sf, name)
+		}
 	}
 	if len(actuals) == 0 {
 		return Term{S: name, T: ret}
@@ -549,4 +558,95 @@ func (ex *Exec) frameAxiom(inner *SpecEnv, sf *SpecFunc, name string, reads, sor
 		}
 	}
 	vc.note("frame axiom for recursive spec function %s (depends only on its declared footprint)", sf.Name)
+}
+
+// autoAxioms adds the package's 'auto' axioms that mention the uninterpreted spec function sf, universally quantified.
+func (ex *Exec) autoAxioms(inner *SpecEnv, sf *SpecFunc, fname string) {
+	if ex.autoDone == nil {
+		ex.autoDone = map[string]bool{}
+	}
+	for _, k := range sortedKeys(ex.prog.cs.Lemmas) {
+		lm := ex.prog.cs.Lemmas[k]
+		if !lm.Axiom || !lm.Auto || lm.PkgPath != sf.PkgPath || !mentionsCall(lm.Body, sf.Name) || ex.autoDone[k] {
+			continue
+		}
+		ex.autoDone[k] = true
+		n := inner.sub()
+		if pk := ex.prog.typesPkgByRel(lm.PkgPath); pk != nil {
+			n.pkg = pk
+		}
+		n.fr = nil
+		n.vars = map[string]Value{}
+		var decls []string
+		for _, p := range lm.Params {
+			t := n.resolveType(p.Type)
+			ex.vc.counter++
+			bv := fmt.Sprintf("q_%s_%d", p.Name, ex.vc.counter)
+			decls = append(decls, "("+bv+" "+ex.vc.tc.sortOf(t)+")")
+			n.vars[p.Name] = Term{S: bv, T: t}
+		}
+		ex.vc.noDefine++
+		body := n.evalTerm(lm.Body, types.Typ[types.Bool])
+		ex.vc.noDefine--
+		ex.vc.addAxiom("auto_"+mangle(k), fmt.Sprintf("(forall (%s) %s)", strings.Join(decls, " "), body.S), fname)
+	}
+}
+
+// ghost components: name(x) reads the ghost map at x in the current state.
+func (ex *Exec) ghostComp(env *SpecEnv, g *GhostDecl) (comp string, pt, rt types.Type) {
+	n := env.sub()
+	if pk := ex.prog.typesPkgByRel(g.PkgPath); pk != nil {
+		n.pkg = pk
+	}
+	pt = n.resolveType(g.Params[0].Type)
+	rt = n.resolveType(g.Ret)
+	comp = "$g:" + g.PkgPath + "." + g.Name
+	if _, ok := ex.vc.heapT[comp]; !ok {
+		ex.vc.heapT[comp] = heapComp{idx: ex.vc.tc.sortOf(pt), sort: ex.vc.tc.sortOf(rt), isArr: true, typ: rt}
+	}
+	return
+}
+
+func (ex *Exec) ghostCur(st *State, comp string) string {
+	if t, ok := st.ghost[comp]; ok {
+		return t
+	}
+	n := ex.initialComp(comp)
+	st.ghost[comp] = n
+	return n
+}
+
+func (env *SpecEnv) ghostRead(g *GhostDecl, args []Expr) Value {
+	if len(args) != 1 {
+		sfail("ghost %s takes one argument", g.Name)
+	}
+	comp, pt, rt := env.ex.ghostComp(env, g)
+	a := env.evalTerm(args[0], pt)
+	return Term{S: sx("select", env.ex.ghostCur(env.st, comp), a.S), T: rt}
+}
+
+// ghostTarget: is this modifies target an application of a ghost component? returns component and index term.
+func (ex *Exec) ghostTarget(pre *SpecEnv, e Expr) (comp string, idx string, rt types.Type, ok bool) {
+	c, isCall := e.(ECall)
+	if !isCall || len(c.Args) != 1 {
+		return
+	}
+	var g *GhostDecl
+	switch f := c.Fn.(type) {
+	case EIdent:
+		g = ex.prog.cs.Ghosts[relPkgPath(pre.pkg)+"."+f.Name]
+	case ESel:
+		if id, isId := f.X.(EIdent); isId {
+			if pk := pre.findPkg(id.Name); pk != nil {
+				g = ex.prog.cs.Ghosts[relPkgPath(pk)+"."+f.Name]
+			}
+		}
+	}
+	if g == nil {
+		return
+	}
+	var pt types.Type
+	comp, pt, rt = ex.ghostComp(pre, g)
+	idx = pre.evalTerm(c.Args[0], pt).S
+	return comp, idx, rt, true
 }
